@@ -306,6 +306,73 @@ func init() {
 		return tuple{r, mkI64(int64(sz))}
 	}
 	stubs["unicode/utf8.DecodeRuneInString"] = dec
+	sliceBytes := func(v value) []Int {
+		sl, _ := v.([]value)
+		out := make([]Int, len(sl))
+		for i, x := range sl {
+			out[i] = x.(Int)
+		}
+		return out
+	}
+	stubs["unicode/utf8.DecodeRune"] = func(e *Exec, fn *ssa.Function, args []value) value {
+		return dec(e, fn, []value{mkStr(sliceBytes(args[0]))})
+	}
+	full := func(e *Exec, bs []Int) bool {
+		n := len(bs)
+		if n == 0 {
+			return false
+		}
+		if allConc(bs) && !hasOpaque(bs) {
+			raw := make([]byte, n)
+			for i, b := range bs {
+				raw[i] = byte(b.C)
+			}
+			return utf8.FullRune(raw)
+		}
+		b0 := bs[0]
+		need := 0
+		switch {
+		case e.decide(byteIn(b0, 0x00, 0x7F)):
+			return true
+		case e.decide(byteIn(b0, 0xC2, 0xDF)):
+			need = 2
+		case e.decide(byteIn(b0, 0xE0, 0xEF)):
+			need = 3
+		case e.decide(byteIn(b0, 0xF0, 0xF4)):
+			need = 4
+		default:
+			return true // an invalid first byte is a full (error) rune
+		}
+		if n >= need {
+			return true
+		}
+		// fewer bytes than the encoding needs: full only if what is there is
+		// already invalid
+		lo, hi := byte(0x80), byte(0xBF)
+		switch {
+		case e.decide(byteIn(b0, 0xE0, 0xE0)):
+			lo = 0xA0
+		case e.decide(byteIn(b0, 0xED, 0xED)):
+			hi = 0x9F
+		case e.decide(byteIn(b0, 0xF0, 0xF0)):
+			lo = 0x90
+		case e.decide(byteIn(b0, 0xF4, 0xF4)):
+			hi = 0x8F
+		}
+		if n > 1 && !e.decide(byteIn(bs[1], lo, hi)) {
+			return true
+		}
+		if n > 2 && !e.decide(byteIn(bs[2], 0x80, 0xBF)) {
+			return true
+		}
+		return false
+	}
+	stubs["unicode/utf8.FullRune"] = func(e *Exec, fn *ssa.Function, args []value) value {
+		return Bool{C: full(e, sliceBytes(args[0]))}
+	}
+	stubs["unicode/utf8.FullRuneInString"] = func(e *Exec, fn *ssa.Function, args []value) value {
+		return Bool{C: full(e, strBytes(args[0]))}
+	}
 	stubs["unicode/utf8.ValidString"] = func(e *Exec, fn *ssa.Function, args []value) value {
 		return Bool{C: e.utf8Valid(strBytes(args[0]))}
 	}
@@ -434,7 +501,7 @@ func init() {
 	stubs["(*regexp.Regexp).String"] = func(e *Exec, fn *ssa.Function, args []value) value { return "<regexp>" }
 	stubs["regexp.MustCompile"] = func(e *Exec, fn *ssa.Function, args []value) value {
 		p := new(value)
-		*p = "regexp:" + argStr(args[0])
+		*p = "regexp:" + e.concretizeStr(args[0])
 		return p
 	}
 
